@@ -115,6 +115,8 @@ func TestVerifReplay(t *testing.T) {
 		{Length: 3, AllowChars: "xyab", RequireSets: []string{"c"}}, {Length: 3, AllowChars: "xya", RequireSets: []string{"bc"}},
 		{Length: 3, AllowChars: "xy", RequireSets: []string{"ab", "c"}, ExcludeChars: "b"}, {Length: 3, AllowChars: "xy", RequireSets: []string{"a", "bc"}, ExcludeChars: "b"},
 		{Length: 4, AllowChars: "xy", RequireSets: []string{"ab", "c"}}, {Length: 2, AllowChars: "xy", RequireSets: []string{"c", "ab"}},
+		{Length: 3, AllowChars: "xy", RequireSets: []string{"ab", "cd"}}, {Length: 3, AllowChars: "xy", RequireSets: []string{"ab,cd"}},
+		{Length: 3, AllowChars: "xy", RequireSets: []string{"ab cd"}}, {Length: 3, AllowChars: "xy", RequireSets: []string{"ab|cd"}}, {Length: 3, AllowChars: "xy", RequireSets: []string{"ab", "", "cd"}},
 	}
 	for i := range near {
 		for j := range near {
